@@ -20,11 +20,13 @@ CLAIM = {
             "those slopes making S'' continuous at every interior knot and satisfying the requested boundary condition "
             "(natural by default, clamped, not-a-knot, periodic); simpson: the parabola through three consecutive samples "
             "over a pair of intervals for even r, over the last interval for odd r >= 3, the trapezoid for r = 1; and "
-            "cumsum[last] = integrate. BOUNDED in the tensor shapes (all values; reported under bounded_obligations, not "
-            "counted as proved): the integrated dimension at any position (positive or negative dim), independence and order "
-            "of the other dimensions with keepdim True / False, results shaped like y, rejection of a length that does not "
-            "match x, of a non-1-D x and of an unknown method, default method cspline - at 2 to 7 (thorough: 9) samples and "
-            "batches of 2 x 3.",
+            "cumsum[last] = integrate. The same for y with batch dimensions of EVERY size (symbolic) in the listed layouts - "
+            "ranks 2, 3 and 4, the integrated dimension first, in the middle or last, given as a positive or negative dim, "
+            "keepdim True / False: cumsum is shaped like y, integrate keeps the other dimensions in their order (with a "
+            "dimension of size 1 when keepdim), and every line of y along dim is integrated independently as above. BOUNDED "
+            "in the tensor shapes (all values; reported under bounded_obligations, not counted as proved): further layouts, "
+            "rejection of a length that does not match x (including length 1), of a non-1-D x and of an unknown method, "
+            "default method cspline - at 2 to 7 (thorough: 9) samples and batches of 2 x 3.",
     "note": "Assumed: linalg.solve returns a solution of its system; matrix products are associative (S (R y) = (S R) y); the "
             "sum of a function that vanishes off a finite set of columns is its sum over that set (proved by induction on every "
             "run as sum_lemma[*]); linearity of finite sums; floats are reals.",
@@ -48,7 +50,7 @@ META = {
                      "dimensions)", "pydv/arr.py for the shape-bounded units", "linalg.solve returns a solution",
                      "matrix products are associative; finite sums are linear", "floats are reals", "z3 / cvc5 (linear integer "
                      "arithmetic with uninterpreted functions; nonlinear real arithmetic on rational identities in the interval widths)"],
-    "assumptions": ["1-D y in the any-size units; other layouts at shapes 2..7 x batches 2 x 3", "floats are reals",
+    "assumptions": ["any-size units: 1-D y and 15 batched layouts of rank 2..4 (sizes symbolic); other layouts at shapes 2..7 x batches 2 x 3", "floats are reals",
                     "periodic boundary condition: y[0] == y[-1] (the library's documented requirement)"],
     "not_applicable_parts": ["dtypes other than real (the code is dtype-generic torch arithmetic)"],
     "min_obligations": 30,
@@ -321,46 +323,86 @@ def unit_rejections():
     return kit.run_unit("rejections", run)
 
 
-def unit_any_size(method, bc=None):
-    """EVERY number of samples: the real SQuad code on tensors of symbolic length (LAM domain, props/anysize.py)"""
+def unit_any_size(method, bc=None, layout=None):
+    """EVERY number of samples: the real SQuad code on tensors of symbolic length (LAM domain, props/anysize.py).
+    layout = (rank of y, dim, keepdim): y with batch dimensions of symbolic sizes, the integrated axis at position dim; the
+    obligations are then stated for the line of y at generic batch indices"""
     from pydv import lam
     from pydv.core import fresh_int
     from props import anysize as A
+    yrank, dim, keepdim = layout or (1, -1, False)
+    ax = dim % yrank
+    lname = "" if layout is None else ",y%dd,dim=%d,keepdim=%s" % (yrank, dim, keepdim)
 
     def run():
         c = ctx()
         nx = fresh_int("nx")
         n = nx.e
-        tag = "any_size[%s%s]" % (method, "/" + bc if bc else "")
+        tag = "any_size[%s%s%s]" % (method, "/" + bc if bc else "", lname)
         c.assume(n >= (3 if method == "cspline" else 2))
-        x, y = lam.sym("x", nx), lam.sym("y", nx)
-        X, Y = A.Seq(lambda i: x.fn((i,))), A.Seq(lambda i: y.fn((i,)))
+        x = lam.sym("x", nx)
+        # y: values yv(position, batch id) - the batch id is an uninterpreted function of the batch indices
+        yv = z3.Function("y", z3.IntSort(), z3.IntSort(), z3.RealSort())
+        bid = z3.Function("batch", *([z3.IntSort()] * max(yrank - 1, 1) + [z3.IntSort()]))
+        bsizes = [fresh_int("nb%d" % k) for k in range(yrank - 1)]
+        for b in bsizes:
+            c.assume(b.e >= 1)
+        yshape = list(bsizes)
+        yshape.insert(ax, nx)
+
+        def yfn(ix):
+            others = [ix[k] for k in range(yrank) if k != ax] or [z3.IntVal(0)]
+            return yv(ix[ax], bid(*others))
+        y = lam.LT(tuple(yshape), yfn, "real")
+        bidx = [z3.Int("b%d" % k) for k in range(yrank - 1)]          # a generic line of y
+        brange = [z3.And(b_ >= 0, b_ < s_.e) for b_, s_ in zip(bidx, bsizes)]
+        bterm = bid(*(bidx or [z3.IntVal(0)]))
+
+        def at(pos):
+            ix = list(bidx)
+            ix.insert(ax, pos)
+            return tuple(ix)
+        line = A.Seq(lambda i: yv(i, bterm))
+        line.fn = lambda ix: yv(ix[-1], bterm)
+        line.uf = yv
+        X, Y = A.Seq(lambda i: x.fn((i,))), line
         c.ghost["lam_invariants"] = dict(A.INVARIANTS)
         opts = {"bc_type": bc} if bc else {}
+        kw = {} if layout is None else {"dim": dim}
         with A.lam_world() as m:
             ok, obj = kit.call_or_fail(c, tag + ":constructor_does_not_raise", lambda: m["sd"].SQuad(x, method=method, **opts))
             if not ok:
                 return
-            ok, cs = kit.call_or_fail(c, tag + ":cumsum_does_not_raise", lambda: obj.cumsum(y))
-            ok2, tot = kit.call_or_fail(c, tag + ":integrate_does_not_raise", lambda: obj.integrate(y))
+            ok, cs = kit.call_or_fail(c, tag + ":cumsum_does_not_raise", lambda: obj.cumsum(y, **kw))
+            ok2, tot = kit.call_or_fail(c, tag + ":integrate_does_not_raise", lambda: obj.integrate(y, **(dict(kw, keepdim=keepdim) if layout else {})))
         if not (ok and ok2):
             return
         if lam.unfinished_cuts():
             raise OutOfSubset("a cut loop was left early: %s" % lam.unfinished_cuts())
-        c.check(tag + ":1-D_y:cumsum_is_shaped_like_y", isinstance(cs, lam.LT) and len(cs.shape) == 1 and lam._same_dim(cs.shape[0], n))
-        c.check(tag + ":1-D_y:integrate_is_a_scalar", isinstance(tot, lam.LT) and tot.shape == ())
+        same_shape = isinstance(cs, lam.LT) and len(cs.shape) == yrank and all(lam._same_dim(a_, b_) for a_, b_ in zip(cs.shape, yshape))
+        c.check(tag + ":cumsum_is_shaped_like_y", same_shape, detail="shape %s" % (getattr(cs, "shape", None),))
+        want_tot = [1 if k == ax else s_ for k, s_ in enumerate(yshape)] if keepdim else [s_ for k, s_ in enumerate(yshape) if k != ax]
+        tot_ok = isinstance(tot, lam.LT) and len(tot.shape) == len(want_tot) and all(lam._same_dim(a_, b_) for a_, b_ in zip(tot.shape, want_tot))
+        c.check(tag + ":integrate_keeps_the_other_dimensions_in_order", tot_ok, detail="shape %s" % (getattr(tot, "shape", None),))
+        if not (same_shape and tot_ok):
+            return
+        tot_ix = at(z3.IntVal(0)) if keepdim else tuple(bidx)
         r, col = z3.Int("r"), z3.Int("c")
-        comb = lambda rr, cc_: lam.linear_summand(cs.fn((rr,)), cc_)[0]
-        nsum = lam.linear_summand(cs.fn((r,)), col)[1]
+        comb = lambda rr, cc_: lam.linear_summand(cs.fn(at(rr)), cc_)[0]
+        nsum = lam.linear_summand(cs.fn(at(r)), col)[1]
         c.check(tag + ":cumsum_reduces_over_all_samples", lam._same_dim(nsum, n))
-        tsum, ntot = lam.linear_summand(tot.fn(()), col)
+        tsum, ntot = lam.linear_summand(tot.fn(tot_ix), col)
+        y = line            # from here on: the generic line
         funcs = {"x": x.uf, "y": y.uf}
         K = None
         if method == "cspline":
-            K = _any_size_slopes(c, tag, bc or "natural", x, y, n, funcs)
+            # the batch dimensions lead in the code's internal layout (the integrated axis is moved to the end)
+            internal = list(at(z3.IntVal(0)))
+            internal[ax], internal[-1] = internal[-1], internal[ax]       # SQuad swaps the integrated axis with the last one
+            K = _any_size_slopes(c, tag, bc or "natural", x, y, n, funcs, lead=internal[:-1])
             if K is None:
                 return
-        base = [n >= (3 if method == "cspline" else 2)]
+        base = [n >= (3 if method == "cspline" else 2)] + brange
         # row 0: nothing integrated yet
         A.prove_with(c, tag + ":first_entry_is_zero", comb(z3.IntVal(0), col) == 0, base + [col >= 0, col < n] + A.facts_at([z3.IntVal(0)], [col]))
         # the last row is what integrate() sums
@@ -400,12 +442,12 @@ def unit_any_size(method, bc=None):
                           linear_in=["y@"] + ([K.decl.name() + "@"] if K is not None else []))
         A.sum_lemmas(c, (2, 3))
         c.prove("canary", z3.BoolVal(False), kind="canary")
-    return kit.run_unit("any_size[%s%s]" % (method, "/" + bc if bc else ""), run)
+    return kit.run_unit("any_size[%s%s%s]" % (method, "/" + bc if bc else "", lname), run)
 
 
-def _any_size_slopes(c, tag, bc, x, y, n, funcs):
+def _any_size_slopes(c, tag, bc, x, y, n, funcs, lead=()):
     from props.C14 import any_size_slope_conditions
-    return any_size_slope_conditions(c, tag, bc, x, y, n, funcs)
+    return any_size_slope_conditions(c, tag, bc, x, y, n, funcs, lead=lead)
 
 
 def units(tier):
@@ -426,4 +468,9 @@ def units(tier):
     us.append(("rejections", unit_rejections))
     for mth, bc in (("trapz", None), ("simpson", None), ("cspline", None), ("cspline", "clamped"), ("cspline", "not-a-knot"), ("cspline", "periodic")):
         us.append(("any_size[%s%s]" % (mth, "/" + bc if bc else ""), lambda mth=mth, bc=bc: unit_any_size(mth, bc)))
+    # y with batch dimensions of symbolic sizes: every position of the integrated axis for ranks 2 and 3, one of rank 4
+    for mth, lay in (("trapz", (2, 0, False)), ("trapz", (2, -1, True)), ("trapz", (3, 1, False)), ("trapz", (3, -2, True)), ("trapz", (3, 0, False)),
+                     ("trapz", (3, -1, False)), ("trapz", (4, 1, False)), ("simpson", (2, 0, True)), ("simpson", (3, -2, False)), ("simpson", (3, 2, False)),
+                     ("cspline", (2, 0, False)), ("cspline", (2, -1, True)), ("cspline", (3, 1, False)), ("cspline", (3, -3, True)), ("cspline", (4, 0, False))):
+        us.append(("any_size[%s,y%dd,dim=%d,keepdim=%s]" % (mth, lay[0], lay[1], lay[2]), lambda mth=mth, lay=lay: unit_any_size(mth, None, lay)))
     return us
